@@ -201,6 +201,29 @@ fn edge_props(prop: &str, tier: &str, seed: u64, threads: usize, out: &str) {
         if fl.starts_with('z') { gen_edge::zst(l) } else { l }
     });
     extra.insert("weak_hash_keys".into(), format!("{} histories with colliding key hashes resp. zero-sized values", nw * wfls.len()));
+    // calls that unwind: an edge value whose Clone panics inside connect / try_connect (plain flavours), the caller
+    // catching it - the call has not happened, so no half of the edge may stay behind
+    exec::new_section();
+    let ffls: Vec<&str> = fls.iter().filter(|f| !f.starts_with('s')).cloned().collect();
+    let nfuse = if quick { 200 } else { 3000 };
+    if !ffls.is_empty() {
+        let ffls = &ffls;
+        spread(&mut ctxs, nfuse, |i| {
+            let mut rng = Rng::new(seed.wrapping_mul(131).wrapping_add(i as u64));
+            let fl = ffls[i % ffls.len()];
+            let n = 2 + rng.below(4);
+            let mut l = gen_edge::random_history(&mut rng, fl, &format!("fu{i}"), n, 40, false);
+            l[0] = format!("case f{fl} fu{i}");
+            l.retain(|x| !x.starts_with("sz ") && !x.starts_with("ecmp ") && !x.starts_with("cmp ") && !x.starts_with("lt"));
+            for x in l.iter_mut() {
+                if (x.starts_with("connect ") || x.starts_with("try_connect ")) && rng.chance(45) {
+                    x.push_str(&format!(" #fuse={}", 1 + rng.below(3)));
+                }
+            }
+            l
+        });
+        extra.insert("unwinding".into(), format!("{nfuse} histories in which the clone of an edge value panics inside connect / try_connect and the caller catches it"));
+    }
     // edge operations issued from inside a live edge loop over one of the nodes involved (a `for` statement or
     // `for_each`): the lists are what the model of live loops says, and the invariant holds afterwards
     exec::new_section();
